@@ -214,7 +214,9 @@ Proof.
   apply scan_spec in Hsw. destruct Hsw as (ww & Hww & -> & Hwwp & Hwstop).
   rewrite (SL ww restw Hww).
   assert (Hcnwd: not_ws_delim c = true).
-  { unfold not_ws_delim. rewrite Hdl. destruct (is_ws c) eqn:E; [|reflexivity]. discriminate. }
+  { unfold not_ws_delim, word_end. rewrite Hdl. destruct (is_ws c) eqn:E; [discriminate|].
+    destruct (N.eqb_spec c c_comma); [contradiction|]. destruct (N.eqb_spec c c_semi); [contradiction|].
+    destruct (N.eqb_spec c 58) as [->|]; [discriminate Hsp | reflexivity]. }
   destruct (is_op tbl (c :: ww)) eqn:Hop.
   { unfold tok. exists ws, (c :: ww). split.
     - constructor; cbn [tk t_start t_end blen]; try lia; try assumption; try discriminate.
